@@ -45,7 +45,8 @@ Qed.
 Lemma drains_memory_l c ls s :
   c_persist c = false -> 1 <= c_ncons c -> run c (init c) ls = Some s -> pc s = PReturned ->
   (forall i, In i (accpre s) ->
-     1 <= cnt i (begun s) /\ (failures s = 0 -> cnt i (begun s) = 1) /\ exists r, In (i, r) (finished s))
+     1 <= cnt i (begun s) /\ (failures s = 0 -> cnt i (begun s) = 1) /\
+     (~ In i (failedids s) -> cnt i (begun s) = 1) /\ exists r, In (i, r) (finished s))
   /\ (forall i, cnt i (ended s) = cnt i (begun s)).
 Proof.
   intros M N R P. assert (I : Inv c s) by (eapply run_inv; [apply init_inv|eassumption]).
@@ -57,8 +58,11 @@ Proof.
     pose proof (i_late _ _ I M E i). specialize (Hin i).
     pose proof (i_begun_ge _ _ I i) as B. rewrite Hw in B. simpl in B.
     assert (F1 : 1 <= sumf (fin1 i) (finished s)) by lia.
-    split; [lia|]. split; [|apply fin_ex; assumption].
-    intros F0. pose proof (i_begun_eq _ _ I F0 i) as B'. rewrite Hw in B'. simpl in B'. lia.
+    split; [lia|]. split; [|split; [|apply fin_ex; assumption]].
+    + intros F0. pose proof (i_begun_eq _ _ I F0 i) as B'. rewrite Hw in B'. simpl in B'. lia.
+    + intros NF. assert (F0 : cnt i (failedids s) = 0).
+      { destruct (cnt i (failedids s)) eqn:Ec; [reflexivity|]. exfalso. apply NF. apply cnt_in. lia. }
+      pose proof (i_begun_eq1 _ _ I i F0) as B'. rewrite Hw in B'. simpl in B'. lia.
   - intros i. pose proof (i_ended _ _ I i) as E. rewrite Hw in E. simpl in E. lia.
 Qed.
 
@@ -225,15 +229,57 @@ Proof.
   destruct (step c s a) eqn:E; [injection H as <- <-; assumption | apply IH; assumption].
 Qed.
 
-Lemma settle_run : forall fuel hc sizes s ls evs s',
-  settle fuel hc sizes s = (ls, evs, s') -> run (h_cfg hc) s ls = Some s'.
+Lemma settle_f_run allow : forall fuel hc sizes s ls evs s',
+  settle_f allow fuel hc sizes s = (ls, evs, s') -> run (h_cfg hc) s ls = Some s'.
 Proof.
   induction fuel as [|f IH]; intros hc sizes s ls evs s' H; simpl in H.
   - injection H as <- _ <-. reflexivity.
-  - destruct (first_enabled (h_cfg hc) s (candidates hc sizes s)) as [[l s1]|] eqn:E.
-    + destruct (settle f hc sizes s1) as [[ls1 evs1] s2] eqn:E2. injection H as <- _ <-.
+  - destruct (first_enabled (h_cfg hc) s (filter allow (candidates hc sizes s))) as [[l s1]|] eqn:E.
+    + destruct (settle_f allow f hc sizes s1) as [[ls1 evs1] s2] eqn:E2. injection H as <- _ <-.
       simpl. rewrite (first_enabled_step _ _ _ _ _ E). eapply IH; eassumption.
     + injection H as <- _ <-. reflexivity.
+Qed.
+
+Lemma settle_run : forall fuel hc sizes s ls evs s',
+  settle fuel hc sizes s = (ls, evs, s') -> run (h_cfg hc) s ls = Some s'.
+Proof. exact (settle_f_run (fun _ => true)). Qed.
+
+Lemma race_takes_run : forall k hc sizes s ls evs s',
+  race_takes k hc sizes s = Some (ls, evs, s') -> run (h_cfg hc) s ls = Some s'.
+Proof.
+  induction k as [|k IH]; intros hc sizes s ls evs s' H; cbn [race_takes] in H;
+    destruct (settle_f not_take_stop settle_fuel hc sizes s) as [[ls1 evs1] s1] eqn:E1;
+    pose proof (settle_f_run _ _ _ _ _ _ _ _ E1) as R1.
+  - injection H as <- _ <-. assumption.
+  - destruct (step (h_cfg hc) s1 LTake) as [s2|] eqn:St; [|discriminate].
+    destruct (race_takes k hc sizes s2) as [[[ls2 evs2] s3]|] eqn:E2; [|discriminate].
+    injection H as <- _ <-. eapply run_app; [eassumption|]. cbn [run]. rewrite St. eapply IH; eassumption.
+Qed.
+
+Lemma exec_race_run hc sizes s m ls evs s' :
+  exec_race hc sizes s m = Some (ls, evs, s') -> run (h_cfg hc) s ls = Some s'.
+Proof.
+  unfold exec_race. intros H.
+  destruct (step (h_cfg hc) s LShutCall) as [s1|] eqn:S1; [|discriminate].
+  destruct (step (h_cfg hc) s1 LCloseStop) as [s2|] eqn:S2; [|discriminate].
+  destruct (race_takes (m - unbegun_taken s) hc sizes s2) as [[[ls3 evs3] s3]|] eqn:E3; [|discriminate].
+  destruct (step (h_cfg hc) s3 LQueueStop) as [s4|] eqn:S4; [|discriminate].
+  destruct (settle settle_fuel hc sizes s4) as [[ls5 evs5] s5] eqn:E5. injection H as <- _ <-.
+  cbn [run]. rewrite S1. cbn [run]. rewrite S2.
+  eapply run_app; [eapply race_takes_run; eassumption|]. cbn [run]. rewrite S4. eapply settle_run; eassumption.
+Qed.
+
+Lemma exec_action_run hc sizes s a ls evs s1 sizes1 :
+  exec_action hc sizes s a = Some (ls, evs, s1, sizes1) -> run (h_cfg hc) s ls = Some s1.
+Proof.
+  unfold exec_action. intros E.
+  destruct a.
+  5: { destruct (exec_race hc sizes s m) as [[[ls0 evs0] s0]|] eqn:Er; [|discriminate].
+       injection E as <- _ <- _. eapply exec_race_run; eassumption. }
+  all: match type of E with context[action_label ?h ?st ?a] => destruct (action_label h st a) as [l|] end; [|discriminate];
+       match type of E with context[step ?c ?st ?x] => destruct (step c st x) as [s0|] eqn:St end; [|discriminate];
+       match type of E with context[settle ?f ?h ?z ?y] => destruct (settle f h z y) as [[ls0 evs0] s00] eqn:Se end;
+       injection E as <- _ <- _; cbn [run]; rewrite St; eapply settle_run; eassumption.
 Qed.
 
 Lemma exec_run_l hc : forall acts sizes s ls evss s',
@@ -244,9 +290,5 @@ Proof.
   - destruct (exec_action hc sizes s a) as [[[[ls1 evs1] s1] sizes1]|] eqn:E; [|discriminate].
     destruct (exec hc sizes1 s1 acts) as [[[ls2 evss2] s2]|] eqn:E2; [|discriminate].
     injection H as <- _ <-.
-    unfold exec_action in E. destruct (action_label hc s a) as [l|]; [|discriminate].
-    destruct (step (h_cfg hc) s l) as [s0|] eqn:St; [|discriminate].
-    destruct (settle settle_fuel hc _ s0) as [[ls0 evs0] s00] eqn:Se. injection E as <- _ <- _.
-    eapply run_app; [|eapply IH; eassumption].
-    simpl. rewrite St. eapply settle_run; eassumption.
+    eapply run_app; [eapply exec_action_run; eassumption | eapply IH; eassumption].
 Qed.
